@@ -3,6 +3,7 @@
 #ifndef OPN2_CONTRACTS_H
 #define OPN2_CONTRACTS_H
 #include "env_opn2.h"
+#define ENV_N_MIDI_CHANNELS_VOL 16
 
 /* libm: CBMC's own log/sqrt models are coarse bands; replaced by stated contracts (assumptions, listed) */
 double log(double x)
@@ -106,4 +107,24 @@ __CPROVER_ensures(g_tap_n == 2 && g_tap[0].is_pan && g_tap[0].chip == SPEC_CH_CH
 __CPROVER_ensures(!g_tap[1].is_pan && g_tap[1].chip == SPEC_CH_CHIP(c) && g_tap[1].port == SPEC_CH_PORT(c) && g_tap[1].addr == 0xB4 + SPEC_CH_CC(c) && g_tap[1].val == g_regLFOSens_storage[c])
 __CPROVER_ensures((g_tap[1].val & 0x3F) == (g_insCache_storage[c].lfosens & 0x3F))
 __CPROVER_ensures(g_synth.m_softPanning ? (g_tap[1].val & 0xC0) == 0xC0 : ((g_tap[1].val & 0x80) != 0) == (value < 80) && ((g_tap[1].val & 0x40) != 0) == (value >= 48));
+
+/* ---------------------------------------------------------------- noteUpdate: the Upd_Volume statement range ------------ */
+/* (C11, caller side) range of OPNMIDIplay::noteUpdate from `if(props_mask & Upd_Volume)` to `if(props_mask & Upd_Pitch)`:
+ * with the channel inside the table invariant (volume, expression, brightness <= 127) and a 7-bit note velocity, touchNote is
+ * called exactly once, with arguments inside its precondition, and the brightness handed over is the documented function of
+ * CC74: percussion 127; full-range flag: CC74 itself; otherwise 2*CC74 below 64 and 127 from 64 on (non-decreasing in CC74). */
+extern MIDIchannel g_vol_chan[1]; extern unsigned g_touch_calls; extern size_t g_touch_c; extern unsigned long g_touch_v, g_touch_cv, g_touch_ce; extern uint8_t g_touch_br;
+extern bool g_fullrange;
+void touchNote_record(size_t c, uint_fast32_t velocity, uint_fast32_t channelVolume, uint_fast32_t channelExpression, uint8_t brightness)
+__CPROVER_requires(velocity <= 127 && channelVolume <= 127 && channelExpression <= 127 && brightness <= 127)     /* touchNote's own precondition (7-bit ranges) */
+__CPROVER_assigns(g_touch_calls, g_touch_c, g_touch_v, g_touch_cv, g_touch_ce, g_touch_br)
+__CPROVER_ensures(g_touch_calls == __CPROVER_old(g_touch_calls) + 1 && g_touch_c == c && g_touch_v == velocity && g_touch_cv == channelVolume && g_touch_ce == channelExpression && g_touch_br == brightness);
+#define SPEC_BRIGHTNESS(midCh) ((((midCh) == 9) || g_vol_chan[0].is_xg_percussion) ? 127 : (g_fullrange ? g_vol_chan[0].brightness : (g_vol_chan[0].brightness >= 64 ? 127 : 2 * g_vol_chan[0].brightness)))
+void noteUpdate_volume(size_t midCh, uint16_t c, uint8_t vol, unsigned props_mask, MIDIchannel *table, bool fullRange)
+__CPROVER_requires(midCh < ENV_N_MIDI_CHANNELS_VOL && table == g_vol_chan - midCh && fullRange == g_fullrange && vol <= 127)
+__CPROVER_requires(g_vol_chan[0].volume <= 127 && g_vol_chan[0].expression <= 127 && g_vol_chan[0].brightness <= 127)
+__CPROVER_assigns(g_touch_calls, g_touch_c, g_touch_v, g_touch_cv, g_touch_ce, g_touch_br)
+__CPROVER_ensures((props_mask & 0x4) == 0 ==> g_touch_calls == __CPROVER_old(g_touch_calls))
+__CPROVER_ensures((props_mask & 0x4) != 0 ==> (g_touch_calls == __CPROVER_old(g_touch_calls) + 1 && g_touch_c == c && g_touch_v == vol &&
+                  g_touch_cv == g_vol_chan[0].volume && g_touch_ce == g_vol_chan[0].expression && g_touch_br == SPEC_BRIGHTNESS(midCh)));
 #endif
